@@ -81,3 +81,8 @@ add("C15", "exploration", "exact-count oracle from the encoder for 413 decisions
     "is exceeded, identically. Bound: 0.2-2 MB (thorough 8 MB) file and field parts with hostile line-break placement are streamed in 1000/4096/65536-byte chunks; the decoder's buffer at quiescent "
     "points, the lag of the file sink behind the fed bytes and the point at which an over-limit field is rejected must stay within chunk + delimiter + 8.",
     "Bound checked at quiescent points / chunk borders; header sections and preamble are small in the workload.")
+add("C10", "fault_enumeration", "exact sequential reference model over exhaustively enumerated access sequences x chunkings x disconnect positions (identity of repeated results, message-consumption monitor at the scripted receive/wsgi.input) + safety-invariant checker over concurrent ASGI histories on a virtual-time loop",
+    "Every access sequence up to length 3 (thorough 4) over {body, stream, partial stream, json, form, close} is run on the real WSGI and ASGI Request for 6 body kinds, several chunkings (incl. empty messages, every "
+    "2-split of short bodies) and every disconnect position; outcomes must equal the model exactly, repeated accesses must return the identical object, and no input may be requested after the terminal message. "
+    "Concurrent histories (2-3 tasks, yield vectors, yields inside receive()) are judged by the named safety invariants (complete body or documented error, compute-once, no value despite disconnect, no loss).",
+    "Trusts the 80-line sequential model; close() outcome not judged; concurrent histories are not judged by strict linearizability (explained in DESIGN.md).")
